@@ -665,3 +665,31 @@ def _q_contract_info(it, a, c):
     h = getattr(it.world, 'contract_info', None)
     if h is None: raise Unsupported('contract info query')
     return h(it, to_string(it, a[1]))
+
+
+def _hook_admin_ok(it, a):
+    adm = it.world.admin.get(ns_of(a[1]), NONE())
+    sender = deref(a[3]).fields[0]
+    return adm.variant == 'Some' and it.ctx.branch(struct_eq(it, adm.fields[0], sender), 'admin')
+
+
+@model('cw_controllers::Hooks::execute_add_hook')
+def _exec_add_hook(it, a, c):
+    if not _hook_admin_ok(it, a): return ERR(Enum('cw_controllers::HookError', 'Admin', [Enum('cw_controllers::AdminError', 'NotAdmin', [])]))
+    r = _add_hook(it, [a[0], None, a[4]], c)
+    if r.variant == 'Err': return r
+    resp = RESP()
+    for k, v in (('action', Str('add_hook')), ('hook', to_string(it, a[4])), ('sender', to_string(it, deref(a[3]).fields[0]))):
+        resp.fields[1].items.append(Agg(CS + 'Attribute', [Str(k), v]))
+    return OK(resp)
+
+
+@model('cw_controllers::Hooks::execute_remove_hook')
+def _exec_remove_hook(it, a, c):
+    if not _hook_admin_ok(it, a): return ERR(Enum('cw_controllers::HookError', 'Admin', [Enum('cw_controllers::AdminError', 'NotAdmin', [])]))
+    r = _remove_hook(it, [a[0], None, a[4]], c)
+    if r.variant == 'Err': return r
+    resp = RESP()
+    for k, v in (('action', Str('remove_hook')), ('hook', to_string(it, a[4])), ('sender', to_string(it, deref(a[3]).fields[0]))):
+        resp.fields[1].items.append(Agg(CS + 'Attribute', [Str(k), v]))
+    return OK(resp)
